@@ -152,7 +152,7 @@ Lemma params_inv b1 b2 : params b1 = params b2 ->
   no_jitter b1 = no_jitter b2 /\ base b1 = base b2 /\ factor b1 = factor b2 /\ cap b1 = cap b2.
 Proof. unfold params. intros H. injection H. auto. Qed.
 
-Lemma delay_ms_params b1 b2 n r : params b1 = params b2 -> delay_ms b1 n r = delay_ms b2 n r.
+Lemma delay_params b1 b2 n r : params b1 = params b2 -> delay b1 n r = delay b2 n r.
 Proof.
   destruct b1, b2; unfold params; cbn. intros H; injection H as -> -> -> ->. reflexivity.
 Qed.
@@ -162,20 +162,20 @@ Lemma dfa_params b1 b2 n r :
   snd (dur_for_attempt b1 n r) = snd (dur_for_attempt b2 n r).
 Proof.
   intros H. unfold dur_for_attempt; cbn [snd].
-  rewrite (delay_ms_params _ _ n r H). reflexivity.
+  apply (delay_params _ _ n r H).
 Qed.
 
 Lemma dfa_fst b n r : fst (dur_for_attempt b n r) = set_default b.
 Proof. reflexivity. Qed.
 
-(* no panic, and the delay in ms, for positive parameters *)
+(* no panic, and the delay, for positive parameters *)
 Lemma dfa_out b n r :
   positive_params (set_default b) -> 0 <= n ->
   snd (dur_for_attempt b n r) =
-  Dur (to_duration (if no_jitter b then expo (set_default b) n
-                    else r mod expo (set_default b) n)).
+  Dur (if no_jitter b then to_duration (expo (set_default b) n)
+       else r mod to_duration (expo (set_default b) n)).
 Proof.
-  intros Hp Hn. unfold dur_for_attempt, delay_ms; cbn [snd].
+  intros Hp Hn. unfold dur_for_attempt, delay; cbn [snd].
   rewrite (expo_exec_spec _ n Hp Hn).
   change (no_jitter (set_default b)) with (no_jitter b).
   destruct (no_jitter b); [reflexivity|].
@@ -193,28 +193,57 @@ Proof.
   unfold bounds in Hb. lia.
 Qed.
 
+(* with jitter: a Duration in [0, min(cap, base*factor^n) ms), whatever the oracle says *)
 Lemma dfa_jitter b n r :
   no_jitter b = false -> bounds (set_default b) -> 0 <= n ->
-  exists d, snd (dur_for_attempt b n r) = Dur (d * millisecond) /\
-            0 <= d < expo (set_default b) n.
+  exists ns, snd (dur_for_attempt b n r) = Dur ns /\
+             0 <= ns < expo (set_default b) n * millisecond.
 Proof.
   intros Hj Hb Hn. pose proof (bounds_positive _ Hb) as Hp.
   rewrite (dfa_out b n r Hp Hn), Hj.
   pose proof (expo_range _ n Hp Hn) as Hr.
-  pose proof (Z.mod_pos_bound r (expo (set_default b) n) ltac:(lia)) as Hm.
-  exists (r mod expo (set_default b) n). split; [|lia].
-  rewrite to_duration_small; [reflexivity|]. unfold bounds in Hb. lia.
+  rewrite to_duration_small by (unfold bounds in Hb; lia).
+  exists (r mod (expo (set_default b) n * millisecond)). split; [reflexivity|].
+  apply Z.mod_pos_bound. unfold millisecond. lia.
+Qed.
+
+(* ... and every value of that range is produced by some oracle value *)
+Lemma dfa_jitter_onto b n ns :
+  no_jitter b = false -> bounds (set_default b) -> 0 <= n ->
+  0 <= ns < expo (set_default b) n * millisecond ->
+  snd (dur_for_attempt b n ns) = Dur ns.
+Proof.
+  intros Hj Hb Hn Hr. pose proof (bounds_positive _ Hb) as Hp.
+  rewrite (dfa_out b n ns Hp Hn), Hj.
+  pose proof (expo_range _ n Hp Hn) as He.
+  rewrite to_duration_small by (unfold bounds in Hb; lia).
+  rewrite Z.mod_small by exact Hr. reflexivity.
+Qed.
+
+(* the code's whole-millisecond draw rand.Intn(d) * time.Millisecond is one of them *)
+Lemma ms_draw_admissible b n k :
+  no_jitter b = false -> bounds (set_default b) -> 0 <= n ->
+  snd (dur_for_attempt b n (k * millisecond)) =
+  Dur ((k mod expo (set_default b) n) * millisecond).
+Proof.
+  intros Hj Hb Hn. pose proof (bounds_positive _ Hb) as Hp.
+  rewrite (dfa_out b n _ Hp Hn), Hj.
+  pose proof (expo_range _ n Hp Hn) as He.
+  rewrite to_duration_small by (unfold bounds in Hb; lia).
+  rewrite Z.mul_mod_distr_r by (unfold millisecond; lia). reflexivity.
 Qed.
 
 Lemma dfa_bounded b n r :
   bounds (set_default b) -> 0 <= n ->
-  exists d, snd (dur_for_attempt b n r) = Dur (d * millisecond) /\
-            0 <= d <= cap (set_default b).
+  exists ns, snd (dur_for_attempt b n r) = Dur ns /\
+             0 <= ns <= cap (set_default b) * millisecond.
 Proof.
   intros Hb Hn. pose proof (expo_range _ n (bounds_positive _ Hb) Hn) as Hr.
   destruct (no_jitter b) eqn:Hj.
-  - exists (expo (set_default b) n). split; [apply dfa_nojitter; assumption|lia].
-  - destruct (dfa_jitter b n r Hj Hb Hn) as (d & Hd & Hr'). exists d. split; [exact Hd|lia].
+  - exists (expo (set_default b) n * millisecond).
+    split; [apply dfa_nojitter; assumption|unfold millisecond; lia].
+  - destruct (dfa_jitter b n r Hj Hb Hn) as (ns & Hd & Hr'). exists ns.
+    split; [exact Hd|unfold millisecond in *; lia].
 Qed.
 
 Lemma dfa_monotone b n m r1 r2 :
@@ -393,11 +422,11 @@ Lemma default_cap_three_minutes b n r :
   cap b = 0 -> bounds (set_default b) -> 0 <= n ->
   exists ns, snd (dur_for_attempt b n r) = Dur ns /\ 0 <= ns <= three_minutes.
 Proof.
-  intros Hc Hb Hn. destruct (dfa_bounded b n r Hb Hn) as (d & Hd & Hr).
-  exists (d * millisecond). split; [exact Hd|].
+  intros Hc Hb Hn. destruct (dfa_bounded b n r Hb Hn) as (ns & Hd & Hr).
+  exists ns. split; [exact Hd|].
   assert (cap (set_default b) = default_cap) as E
     by (unfold set_default; cbn [cap]; rewrite Hc; reflexivity).
-  rewrite E in Hr. destruct defaults_ok as (_ & _ & _ & H3). unfold millisecond. lia.
+  rewrite E in Hr. destruct defaults_ok as (_ & _ & _ & H3). unfold millisecond in Hr. lia.
 Qed.
 
 (* ---- D22: outside the bound the int64 conversion wraps to a negative delay ---- *)
